@@ -210,6 +210,30 @@ PROPS["C13"] = {
     "level_note": "Trusted: Lean kernel + {propext, Classical.choice, Quot.sound}; value-level layering on C01-C03/C07; Bezout coefficients are compared implementation-vs-model (exact) and implementation-vs-oracle through the identity a*x+b*y = gcd; correspondence strength bounded by the generators.",
 }
 
+PROPS["C02"] = {
+    "lean": ["NB.Props.C02"],
+    "gens": ["c02"],
+    "profiles": ["release"],
+    "trusted": ["primitive u64/u128 arithmetic of mac_with_carry / mul_with_carry = Nat arithmetic (absence of u128 overflow is proved: mac_with_carry_no_overflow)",
+                "Toom-3 intermediate BigInts are modelled as Int values: BigInt + - <<1 *2 are the mathematical operations (justified by C01), /3 = Int.tdiv, >>1 = floor; the five point products go through the model's own multiplication",
+                "u64::is_power_of_two / trailing_zeros are modelled by their mathematical definitions"],
+    "assumptions": COMMON_ASSUME,
+    "level_text": "Theorem mac3_spec: for ALL parameter records satisfying the decidable predicate ValidMul (obligation gen_params_valid_mul over the thresholds/split rules regenerated from the source), all digit slices and every fuel >= b.len+c.len+1, under the precondition every caller establishes (acc.len >= b.len+c.len+1 and acc+b*c < B^(acc.len-1)) the model of mac3 returns ok acc' with val acc' = val acc + val b * val c and the length unchanged - in all four regimes (schoolbook, half-Karatsuba, Karatsuba with every sign of the middle term, Toom-3 incl. Bodrato interpolation and recomposition) and through zero stripping; hence no carry-overflow assertion, no dropped add2 carry, no sub2 underflow, no slice fault is reachable. mul_spec / mulAssign_spec / checked_mul_spec / bigint_mul_spec / bigint_mulAssign_spec: for ALL canonical operands and all nine sign pairs the model of * , *= and checked_mul returns exactly the canonical representation of the mathematical product. Nothing is _partial. The model is tied to the source by the regenerated parameters and by a 3-way differential run (public API, mac3 hook with non-zero / exactly sized accumulators, sub_sign hook) over lengths on both sides of every threshold.",
+    "level_note": "Trusted: Lean kernel + {propext, Classical.choice, Quot.sound}; the hand-written model NB.Model.Mul (Toom-3 intermediates as Int values, u128 row arithmetic as Nat arithmetic); Vec/ownership not modelled; correspondence strength bounded by the generators (all six regime probes are hit in the quick tier).",
+}
+
+PROPS["C20"] = {
+    "lean": ["NB.Props.C20"],
+    "gens": ["c20"],
+    "profiles": ["release"],
+    "special": lambda ctx: __import__("c20").special(ctx),
+    "trusted": ["the work unit is the hook statement crate::verif::work(b.len()) in mac_digit (after the c == 0 early return); NB.Model.Cost mirrors the dispatch of mac3 and is compared for equality with the real counter",
+                "the nominal recurrence W (NB.Cost.W) is my formalisation of 'every sub-product at its maximal length'; its relation to the real count (W >= work) is measured, not proved"],
+    "assumptions": COMMON_ASSUME + ["growth clauses are proved for the nominal-length recurrence W over the property's finite size table; the exact cost is data dependent and not monotone in the operand lengths, so cost <= W is checked on the measured numbers only"],
+    "level_text": "cost_le_schoolbook: for ALL valid parameter records, all operands and every fuel the work count of the Cost model (row length per non-zero multiplier digit, mirroring mac3's dispatch) is at most x.len*y.len. W_doubling_table / W_4096_quarter / W_unbalanced_bank (kernel evaluation over the parameters regenerated from the source, re-elaborated on every threshold change): for n in 256..8192 the nominal recurrence satisfies 4*W(2n,2n) <= 13*W(n,n), 4*W(4096,4096) < 4096^2, and W(n,m) <= n*m on the unbalanced bank (n,2n-1),(n,2n),(n,64n). Tie: on every run the real work counter equals the Cost model on dense and structured operands, W dominates the measured counts, and the property's inequalities are tested on the measured numbers themselves (ratio <= 3.25, 4*work(4096) < 4096^2, unbalanced <= n*m).",
+    "level_note": "Trusted: Lean kernel + {propext, Classical.choice, Quot.sound}; Cost model and W hand-written; the growth clauses are theorems about W, connected to the real counter by measurement only (no all-data theorem cost <= W exists: the cost is not monotone in the length across a regime switch).",
+}
+
 NOT_CLAIMED = {}
 
 if __name__ == "__main__":
